@@ -74,7 +74,8 @@ def report(manager, fileobj, sev_level, conf_level, lines=-1):
         writer.writeheader()
         for result in results:
             r = result.as_dict(with_code=False)
-            r["issue_cwe"] = r["issue_cwe"]["link"]
+            # a finding need not carry a CWE (the argument of Issue is optional)
+            r["issue_cwe"] = r["issue_cwe"].get("link", "")
             r["more_info"] = docs_utils.get_url(r["test_id"])
             writer.writerow(r)
 
